@@ -3,7 +3,7 @@
    driver only moves characters.  Field kinds: decimal number, hex byte string, and lists
    `L:hex:hex...` (`L` = empty list, `L:` = one empty string). *)
 From Scrapli Require Import Bytes Regex PlatformTypes Generated Generic Netconf Channel Replay Queue Telnet NcSession Session Network SshArgs.
-From Scrapli Require Pipes.
+From Scrapli Require Pipes Options OptionsRun.
 Open Scope N_scope.
 
 Definition COLON : N := 58.
@@ -180,16 +180,32 @@ Definition mk_cfg (fs : list bytes) : option chan_cfg :=
   | None => None
   end.
 
+Definition show_chan (so : rsys * list call_out) : list bytes :=
+  let '(s, outs) := so in
+  [ join [COMMA] (map emit_out outs);
+    (if desynced s then bs "desync" else bs "sync");
+    emit_wlog (s_wlog s);
+    emit_list (flat_map (fun n : N * bytes => if fst n =? TAG_CB then [snd n] else []) (s_notes s)) ].
+
 Definition run_chan (fs : list bytes) : list bytes :=
   match mk_cfg fs with
   | None => [bs "no-such-prompt-pattern"]
   | Some cfg =>
       let calls := map (fun spec => (fun _ : list (N * bytes) => parse_call cfg spec)) (parse_list (nthf 5 fs)) in
-      let '(s, outs) := replay_session cfg (of_hex (nthf 4 fs)) (parse_log (nthf 6 fs)) calls in
-      [ join [COMMA] (map emit_out outs);
-        (if desynced s then bs "desync" else bs "sync");
-        emit_wlog (s_wlog s);
-        emit_list (flat_map (fun n : N * bytes => if fst n =? TAG_CB then [snd n] else []) (s_notes s)) ]
+      show_chan (replay_session cfg (of_hex (nthf 4 fs)) (parse_log (nthf 6 fs)) calls)
+  end.
+
+(* same, printing every legal outcome when a connection loss races with the operation *)
+Definition dedup_lines (l : list bytes) : list bytes :=
+  fold_right (fun x acc => if existsb (beqb x) acc then acc else x :: acc) [] l.
+
+Definition run_chanalt (fs : list bytes) : list bytes :=
+  match mk_cfg fs with
+  | None => [bs "no-such-prompt-pattern"]
+  | Some cfg =>
+      let calls := map (fun spec => (fun _ : list (N * bytes) => parse_call cfg spec)) (parse_list (nthf 5 fs)) in
+      [join (bs " | ") (dedup_lines (map (fun so => unfields (show_chan so))
+                                   (replay_session_alts cfg (of_hex (nthf 4 fs)) (parse_log (nthf 6 fs)) calls)))]
   end.
 
 (* ---- queue histories: q20 <history>  with tokens E<hex byte> D A R G, comma separated.
@@ -278,17 +294,28 @@ Definition parse_netcall (net : netcfg) (spec : bytes) : call := fun notes =>
     net_send_interactive net cached (hexf 1 ps) evs (mkOpts (o_strip o) (o_eager o) (o_exact o) [] (names_to_res (nthf 3 ps)))
   else fun_fail.
 
-Definition run_net (fs : list bytes) : list bytes :=
+Definition net_setup (fs : list bytes) : chan_cfg * list call :=
   let levels := map parse_level (parse_list (nthf 6 fs)) in
   let joined := alt_all (map (fun kl => lv_pattern (snd kl)) levels) in
   let cfg := mkCfg (N.to_nat (parse_num (nthf 1 fs))) joined (of_hex (nthf 2 fs)) 0%Z in
   let net := mkNet levels (of_hex (nthf 4 fs)) (of_hex (nthf 5 fs)) cfg (fun _ l => l) (fun l => l) in
-  let calls := map (parse_netcall net) (parse_list (nthf 7 fs)) in
-  let '(s, outs) := replay_session cfg (of_hex (nthf 3 fs)) (parse_log (nthf 8 fs)) calls in
+  (cfg, map (parse_netcall net) (parse_list (nthf 7 fs))).
+
+Definition show_net (so : rsys * list call_out) : list bytes :=
+  let '(s, outs) := so in
   [ join [COMMA] (map emit_out outs);
     (if desynced s then bs "desync" else bs "sync");
     emit_wlog (s_wlog s);
     to_hex (last_cur (s_notes s) []) ].
+
+Definition run_net (fs : list bytes) : list bytes :=
+  let '(cfg, calls) := net_setup fs in
+  show_net (replay_session cfg (of_hex (nthf 3 fs)) (parse_log (nthf 8 fs)) calls).
+
+Definition run_netalt (fs : list bytes) : list bytes :=
+  let '(cfg, calls) := net_setup fs in
+  [join (bs " | ") (dedup_lines (map (fun so => unfields (show_net so))
+                               (replay_session_alts cfg (of_hex (nthf 3 fs)) (parse_log (nthf 8 fs)) calls)))].
 
 (* ---- C01 hypotheses: c01hyp depth prompt ret start flags cmds echos resps results -> 1|0 ----
    evaluates [session_ok] (the theorem's hypothesis) on the exchanges observed in a run *)
@@ -395,9 +422,12 @@ Definition dispatch (fs : list bytes) : list bytes :=
   else if beqb name (bs "nc") then run_nc fs
   else if beqb name (bs "c01hyp") then run_c01hyp fs
   else if beqb name (bs "net") then run_net fs
+  else if beqb name (bs "chanalt") then run_chanalt fs
+  else if beqb name (bs "netalt") then run_netalt fs
   else if beqb name (bs "c14") then run_c14 fs
   else if beqb name (bs "login") then run_login fs
   else if beqb name (bs "c16") then Pipes.run_c16 fs
+  else if beqb name (bs "c19") then OptionsRun.run_c19 fs
   else [bs "unknown-case"].
 
 Definition run_line (line : bytes) : bytes := unfields (dispatch (fields line)).
